@@ -48,7 +48,7 @@ func c18build(depth int) (string, []c18member) {
 				c18member{path: append(append([]string{}, base...), "Sub", "Deep"), kind: "hashsubfield", value: counter, hashes: []int{len(path)}, pkgs: len(path)})
 		}
 		// inside code: full access to private members, also when called from outside
-		sb.WriteString("(defn Id [x] x) (defn GetVal [] val) (defn SetVal [v] (set val v)) (defn Get_val [] _val) (defn CallPriv [] (fn1)) (defn GetHidden [] (hget hh F:)) ")
+		sb.WriteString("(defn Id [x] x) (defn GetVal [] val) (defn SetVal [v] (set val v)) (defn Get_val [] _val) (defn CallPriv [] (fn1)) (defn GetHidden [] (hget hh F:)) (defn GetPub [] Val) (defn SetPub [v] (set Val v)) ")
 		if d > 1 {
 			for _, p := range []string{"Pk", "pk", "_pk"} {
 				sb.WriteString("(def " + p + " " + gen(p, append(append([]string{}, path...), p), d-1) + ") ")
@@ -323,6 +323,20 @@ func c18inside(c *engine.Ctx, src string, depth int) {
 		if !a.OK() || !strings.HasSuffix(a.Short(), " 4321)") {
 			c.Violation("inside-access", "C18/inside-access", w, fmt.Sprintf("public functions of %s reading/calling/writing its private members give %s", prefix, a))
 		}
+		// one member table: what package code writes is what an outside read sees, and the other way round
+		public := true
+		for _, el := range p {
+			public = public && capitalised(el)
+		}
+		if public {
+			env2 := zy.New(true)
+			zy.Eval(env2, src)
+			b := zy.Eval(env2, "(list (begin ("+prefix+".SetPub 777) (+ 0 "+prefix+".Val)) (begin (set "+prefix+".Val 888) ("+prefix+".GetPub)) (begin {"+prefix+".Val = 999} ("+prefix+".GetPub)) (+ 0 "+prefix+".Val))")
+			env2.Close()
+			if b.Short() != "(777 888 999 999)" {
+				c.Violation("inside-outside-coherence", "C18/inside-outside-coherence", w, fmt.Sprintf("the public member %s.Val written by package code then read from outside, written from outside (set, infix) then read by package code, gives %s, want (777 888 999 999)", prefix, b))
+			}
+		}
 		c.Outcome("inside|" + a.Short())
 	}
 }
@@ -361,7 +375,7 @@ func init() {
 		Level: "exploration",
 		Rule: "a package tree of depth 3 (thorough 4) in which every package holds values, functions and hashes (with a nested hash) under an upper-case, a lower-case and an underscore name, and nested packages stored under all three kinds of names; " +
 			"for every member: every dot path from outside x {direct, alias of the top package, alias of each nested package on the way, the package held in a plain hash of the script} x 8 read routes (operand of a builtin / call through the path, right-hand side of def, infix right-hand side, argument, one-element dot path handed to a public function of the package literally / quoted / computed / through map and apply) and 2 write routes (set, infix assignment); " +
-			"oracle R7: reachable iff the last hop is capitalised (for hash fields: iff the hash is stored under a capitalised name), nested packages traversable under any name; allowed -> the member's unique number / the write takes effect, denied -> an error and the member unchanged (read back through an inside getter); public functions keep access to private members",
+			"oracle R7: reachable iff the last hop is capitalised (for hash fields: iff the hash is stored under a capitalised name), nested packages traversable under any name; allowed -> the member's unique number / the write takes effect, denied -> an error and the member unchanged (read back through an inside getter); public functions keep access to private members, and a public member written by package code / from outside (set, infix) is the same variable for the other side",
 		Assumptions: []string{"lower-case fields of a hash are not package members and are not judged"},
 		Run:         func(c *engine.Ctx) { c18all(c, c.Thorough(), "") },
 		Replay: func(c *engine.Ctx, w string) {
